@@ -3,11 +3,11 @@ package main
 // Instruction semantics.
 
 import (
-	"os"
 	"fmt"
 	"go/token"
 	"go/types"
 	"math/big"
+	"os"
 
 	"golang.org/x/tools/go/ssa"
 )
